@@ -13,7 +13,9 @@ def fn_key(ln):
         e = json.loads(ln)
     except Exception:
         return None
-    inp = e.get("p") or e.get("q") or e.get("el") or e.get("v") or []
+    if e.get("op") == "key":
+        return ("key", bytes(e["secret"]), e["cap"], tuple(e.get("date", [])), bytes(e["region"]), bytes(e["service"]), e["res"])
+    inp = e.get("p") or e.get("q") or e.get("el") or e.get("v") or e.get("s") or []
     return (e.get("op"), bytes(inp) if isinstance(inp, list) else str(inp), e.get("s3", e.get("plus", None)), e.get("res"))
 
 
@@ -74,4 +76,45 @@ def C10(ctx):
         assumptions=["process-level hash seeds are varied by the C18 check, which reuses this oracle"])
 
 
-PROPS = {"C09": C09, "C10": C10}
+def C06(ctx):
+    q = ctx.quick
+    mc(ctx, "MC_KeyChain", "MC_KeyChain.cfg", label="PathIndependence")
+    mc(ctx, "MC_KeyChain", "MC_KeyChain_reach.cfg", expect_violation="NeverSigning", label="reach-ksigning")
+    fn_campaign(ctx, [("key_caps", 0), ("key_chain", 0)], [("key", 3000 if q else 150000)])
+    return dict(
+        rule="MC: every composition of the 10 public derivation methods reaches the same symbolic HMAC term per key kind "
+             "(PathIndependence), with a reachability control. E: 13 secret lengths x 3 contents x 8 capacities for from_str; "
+             "8 secrets x 18 dates x 6 regions x 6 services through all 10 method paths for the default type. R: seeded "
+             "random secrets/dates/names. The harness evaluates the four HMAC steps with its own HMAC-SHA256 and logs "
+             "inputs and outputs; TLC checks the inputs are exactly 'AWS4'+secret, YYYYMMDD (Civil/Iso8601), region, service, "
+             "'aws4_request', that the steps are chained, and that the library's bytes on every path equal them. "
+             "distinct = distinct (secret, cap, date, region, service, result).",
+        assumptions=["the harness's own HMAC-SHA256 (self-tested against RFC 4231 vectors on every run)",
+                     "capacities are const generics: the instantiated list is {0,3,4,5,8,44,64,100}"])
+
+
+def C16(ctx):
+    q = ctx.quick
+    gens = [("ts_field", 0), ("ts_year", 0), ("ts_calendar", 0), ("ts_frac", 0), ("ts_seps", 0), ("ts_affix", 0)]
+    if not q:
+        gens.append(("ts_offset", 0))
+    fn_campaign(ctx, gens, [("ts", 6000 if q else 200000)])
+    return dict(
+        rule="E: TLC enumerates each two-digit field 00..99 with the others fixed (basic+extended), 8 boundary years, every "
+             "(month, day<=31) of 1900/2000/2015/2016/2100, fraction lengths 0..12 with '.' and ',', all 16 separator "
+             "combinations x 6 zones, 50 affix/degenerate strings%s; R: seeded renderings of random instants with one random "
+             "mutation (incl. non-ASCII digits). Each string goes through the library's authenticator factory (unstable "
+             "API); TLC re-parses the recorded string with Iso8601!Parse and requires: accept with exactly the reference "
+             "UTC instant, the compact UTC line in the string-to-sign and the UTC scope date / reject with "
+             "IncompleteSignature 400 / either where the statement is silent. distinct = distinct (string, result)."
+             % ("" if q else ", every offset sign x hh 00..99 x mm 00..99 x colon"),
+        assumptions=["don't-care: mixed basic/extended separators, lower-case t/z, offset hours 20-23, year 0000, instants "
+                     "whose UTC value leaves years 1..9999",
+                     "end-to-end use of timestamps (both carriers, window, scope) is covered by C04/C03/C13 traces"])
+
+
+def fn_key2(ln):
+    return hash(ln)
+
+
+PROPS = {"C06": C06, "C09": C09, "C10": C10, "C16": C16}
